@@ -322,6 +322,8 @@ def export_model(m, rec, spec, want, nwin):
     out['bc'] = [bool(b) for b in lat.bc]
     out['explicit_plus_hc'] = bool(getattr(m, 'explicit_plus_hc', False))
     out['trivial_shift'] = bool(lat.unit_cell[0].leg.chinfo.trivial_shift)
+    from tenpy.networks.site import GroupedSite
+    out['grouped_sites'] = any(isinstance(s_, GroupedSite) for s_ in lat.unit_cell)
     uc = lat.unit_cell
     out['needs_JW'] = [{op: bool(s.op_needs_JW(op)) for op in s.opnames} for s in uc]
     out['hc_ops'] = [{op: s.get_hc_op_name(op) for op in s.opnames if True} for s in uc]
@@ -394,7 +396,10 @@ def export_model(m, rec, spec, want, nwin):
     has_bond = False
     if 'bond' in want:
         try:
-            Hb = m.calc_H_bond()
+            if isinstance(m, M.CouplingModel):
+                Hb = m.calc_H_bond()
+            else:
+                Hb = m.H_bond
             has_bond = True
         except (ValueError, AssertionError) as e:
             # not a nearest-neighbour Hamiltonian (multi-site terms trip an assert instead of the documented ValueError)
@@ -403,6 +408,11 @@ def export_model(m, rec, spec, want, nwin):
             rec.errors['calc_H_bond'] = type(e).__name__ + ': ' + str(e)[:200]
     if has_bond:
         rec.run('H_bond_window', lambda: bonds_dense_window(Hb, sites, N, finite))
+        if finite and L >= 4 and Hb[L - 1] is not None:
+            def hb_last():
+                h = Hb[L - 1].itranspose(['p0', 'p1', 'p0*', 'p1*']).to_ndarray()
+                return h.reshape(h.shape[0] * h.shape[1], -1)
+            rec.run('Hb_last', hb_last)
         out['H_bond_0_none'] = Hb[0] is None
     if finite:
         def ed_mpo():
@@ -419,8 +429,9 @@ def export_model(m, rec, spec, want, nwin):
         if 'exporters' in want:
             rec.run('H_np', lambda: ED.get_numpy_Hamiltonian(m))
             rec.run('H_np_noundo', lambda: ED.get_numpy_Hamiltonian(m, undo_sort_charge=False))
-            rec.run('H_sp', lambda: ED.get_scipy_sparse_Hamiltonian(m).toarray())
-            rec.run('H_sp_noundo', lambda: ED.get_scipy_sparse_Hamiltonian(m, undo_sort_charge=False).toarray())
+            if isinstance(m, M.CouplingModel):      # (documented: NotImplementedError otherwise)
+                rec.run('H_sp', lambda: ED.get_scipy_sparse_Hamiltonian(m).toarray())
+                rec.run('H_sp_noundo', lambda: ED.get_scipy_sparse_Hamiltonian(m, undo_sort_charge=False).toarray())
             rec.run('H_np_mpomodel', lambda: ED.get_numpy_Hamiltonian(M.MPOModel(lat, H)))
             rec.run('H_np_mpomodel_noundo', lambda: ED.get_numpy_Hamiltonian(M.MPOModel(lat, H), undo_sort_charge=False))
         if has_bond and L >= 2:
